@@ -229,6 +229,42 @@ func main() {
 	res := seqmc.Explore(r, seqmc.Config{Name: "bimap", New: func() seqmc.Sys {
 		return &h{u: u, b: &maps.Bimap[int, int]{}, model: map[int]int{}}
 	}})
+	// an Add that panics (an unhashable value inside an interface, on a key that collides with nothing;
+	// the caller recovers) must leave the Bimap exactly as it was: no half of a pair
+	for _, prior := range []int{0, 1, 3} {
+		b := &maps.Bimap[string, any]{}
+		for i := 0; i < prior; i++ {
+			b.Add(fmt.Sprint("k", i), i)
+		}
+		for _, bad := range []func(){
+			func() { b.Add("fresh", []int{1}) },
+			func() { b.Add("fresh2", map[int]int{}) },
+		} {
+			func() {
+				defer func() { recover() }()
+				bad()
+			}()
+			n := 0
+			ok := true
+			b.Range(func(k string, v any) bool {
+				n++
+				defer func() {
+					if recover() != nil {
+						ok = false // the map holds a value that cannot even be looked up
+					}
+				}()
+				if gk, found := b.GetReverse(v); !found || gk != k {
+					ok = false
+				}
+				return true
+			})
+			_, f1 := b.GetForward("fresh")
+			_, f2 := b.GetForward("fresh2")
+			if b.Len() != prior || n != prior || !ok || f1 || f2 || b.ContainsForward("fresh") {
+				r.Report(ev.Violation{Sig: "Add:recovered-panic", Msg: fmt.Sprintf("Bimap[string,any] with %d pairs: after Add(fresh key, unhashable value) panicked and was recovered: Len %d, Range visits %d pairs (consistent %v), GetForward(fresh) present %v", prior, b.Len(), n, ok, f1 || f2), Replay: map[string]any{"family": "recovered-panic", "pairs": prior}})
+			}
+		}
+	}
 	typedStates := allTypedBimaps(r)
 	r.Set("key_value_type_states", typedStates)
 	// Large-size family: up to 200 pairs with every collision pattern, against a pair model
